@@ -342,7 +342,20 @@ func IllTyped(w *vt.W, rng *rand.Rand) {
 				emit(name, fmt.Sprintf("illegal quality letter %q in query at %d", bad, p), al, mkq(base, a), mkq(string(s), a))
 			}
 		}
+		// sequences of unequal length: the illegal letter lies beyond the end of the other sequence
+		for _, bad := range []byte{'x', 0} {
+			long := []byte(base + base)
+			long[len(long)-2] = bad
+			emit(name, fmt.Sprintf("illegal letter %q in the tail of a query longer than the reference", bad), al, mk("acg", a), mk(string(long), a))
+			emit(name, fmt.Sprintf("illegal letter %q in the tail of a reference longer than the query", bad), al, mk(string(long), a), mk("acg", a))
+			emit(name, fmt.Sprintf("illegal quality letter %q in the tail of a query longer than the reference", bad), al, mkq("acg", a), mkq(string(long), a))
+			emit(name, fmt.Sprintf("illegal quality letter %q in the tail of a reference longer than the query", bad), al, mkq(string(long), a), mkq("acg", a))
+		}
 		emit(name, "differing alphabets", al, mk(base, a), mk("acguacg", alphabet.RNAgapped))
+		// another alphabet of the same molecule type, length and gap letter, with the letters in another order
+		if twin, err := alphabet.NewAlphabet("-tgca", feat.DNA, '-', 'n', false); err == nil {
+			emit(name, "differing alphabets of equal type, length and gap", al, mk(base, a), mk(base, twin))
+		}
 		emit(name, "alphabet without gap at index 0", al, mk(base, alphabet.DNA), mk(base, alphabet.DNA))
 		emit(name, "letters against quality letters", al, mk(base, a), mkq(base, a))
 		emit(name, "quality letters against letters", al, mkq(base, a), mk(base, a))
